@@ -79,9 +79,20 @@ def r191(ctx):
     floats = [(n, s) for n, s in fs if s and s.endswith("f")]
     rd = tree.func(GROMACS, "read_gromos96_file")
     lc = _local_consts(rd)
-    if "_len" not in lc or "_pos" not in lc:
-        raise AnalysisError("R-19.1: _len/_pos not found in read_gromos96_file")
-    _len, _pos = lc["_len"].value, lc["_pos"].value
+    # roles by use: field width = step of the range that drives the float slices (and the slice width);
+    # prefix width = the non-zero start of such a range = the upper bound of the text-prefix slice
+    wname = pname = None
+    for n in walk_local(rd):
+        if isinstance(n, ast.ListComp) and any(isinstance(c, ast.Call) and last_name(c) == "float" and c.args and isinstance(c.args[0], ast.Subscript) and isinstance(c.args[0].slice, ast.Slice) for c in ast.walk(n.elt)):
+            it = n.generators[0].iter
+            if isinstance(it, ast.Call) and last_name(it) == "range" and len(it.args) == 3:
+                if isinstance(it.args[2], ast.Name):
+                    wname = it.args[2].id
+                if isinstance(it.args[0], ast.Name):
+                    pname = it.args[0].id
+    if wname not in lc or pname not in lc:
+        raise AnalysisError("R-19.1: the field width / prefix width locals of read_gromos96_file were not found (range(start, stop, step) of the float slices)")
+    _len, _pos = lc[wname].value, lc[pname].value
     # GROMOS96 POSITION/VELOCITY records are fixed-column: "%5d %-5s %-5s%7d" (24 characters) then 3 x %15.9f
     if (_pos, _len) == (24, 15):
         ctx.ok(rid, rd, "g96: reader columns (prefix 24, fields 15) are those of the GROMOS96 format written by GROMACS")
@@ -98,10 +109,10 @@ def r191(ctx):
     nsl = []
     starts = []
     for n in walk_local(rd):
-        if isinstance(n, ast.ListComp) and "float(line[" in ast.unparse(n):
+        if isinstance(n, ast.ListComp) and any(isinstance(c, ast.Call) and last_name(c) == "float" and c.args and isinstance(c.args[0], ast.Subscript) and isinstance(c.args[0].slice, ast.Slice) for c in ast.walk(n.elt)):
             it = n.generators[0].iter
             try:
-                rng = eval(compile(ast.Expression(ast.fix_missing_locations(ast.Call(func=ast.Name("list", ast.Load()), args=[it], keywords=[]))), "<r>", "eval"), {"list": list, "range": range, "_len": _len, "_pos": _pos})
+                rng = eval(compile(ast.Expression(ast.fix_missing_locations(ast.Call(func=ast.Name("list", ast.Load()), args=[it], keywords=[]))), "<r>", "eval"), {"list": list, "range": range, wname: _len, pname: _pos})
             except Exception as exc:
                 raise AnalysisError(f"R-19.1: cannot fold the reader's slice range {short(it, 40)}: {exc}")
             nsl.append(len(rng))
@@ -113,8 +124,14 @@ def r191(ctx):
     if starts and _pos in starts:
         # the writer's prefix is the text the reader cut at _pos
         wr = tree.func(GROMACS, "write_gromos96_file")
-        ok = any(isinstance(c, ast.Call) and isinstance(c.func, ast.Attribute) and c.func.attr == "format" and "_G96_FMT" in ast.unparse(c.func.value) and c.args and path_of(c.args[0]) == "line" for c in walk_local(wr))
-        pre = any(isinstance(n, ast.Assign) and ast.unparse(n.value) == "line[:_pos]" for n in walk_local(rd))
+        # the writer formats (<raw text item>, x, y, z): the first argument is the loop variable over the raw lines
+        ok = False
+        for c in walk_local(wr):
+            if isinstance(c, ast.Call) and isinstance(c.func, ast.Attribute) and c.func.attr == "format" and "_G96_FMT" in ast.unparse(c.func.value) and c.args and isinstance(c.args[0], ast.Name):
+                for L in loops_of(c):
+                    if isinstance(L, ast.For) and c.args[0].id in {x.id for x in ast.walk(L.target) if isinstance(x, ast.Name)}:
+                        ok = True
+        pre = any(isinstance(n, ast.Assign) and isinstance(n.value, ast.Subscript) and isinstance(n.value.slice, ast.Slice) and n.value.slice.lower is None and isinstance(n.value.slice.upper, ast.Name) and n.value.slice.upper.id == pname for n in walk_local(rd))
         if ok and pre:
             ctx.ok(rid, wr, f"g96: the writer's text prefix is the reader's line[:_pos] (= {_pos} characters), the first float slice starts at {_pos}")
         else:
@@ -123,11 +140,31 @@ def r191(ctx):
         ctx.bad(rid, rd, f"g96: the float slices start at {starts} but the prefix ends at {_pos}")
     n9, n3 = len(_fields(b9)), len(_fields(b3))
     wr = tree.func(GROMACS, "write_gromos96_file")
-    disp = [n for n in walk_local(wr) if isinstance(n, ast.If) and ast.unparse(n.test) == "len(box) == 3"]
+    bpar = [p.arg for p in wr.args.args]
+    disp = [n for n in walk_local(wr) if isinstance(n, ast.If) and isinstance(n.test, ast.Compare) and isinstance(n.test.left, ast.Call) and last_name(n.test.left) == "len" and isinstance(n.test.ops[0], ast.Eq) and isinstance(n.test.comparators[0], ast.Constant) and n.test.comparators[0].value == 3]
     if n9 == 9 and n3 == 3 and disp and "_G96_BOX_FMT_3" in ast.unparse(disp[0].body[0]) and "_G96_BOX_FMT" in ast.unparse(disp[0].orelse[0]):
         ctx.ok(rid, disp[0], "g96 box: 3-field format for len(box) == 3, 9-field format otherwise")
     else:
         ctx.bad(rid, wr, f"g96 box: formats have {n3}/{n9} fields or the len(box) dispatch does not select them consistently")
+
+
+def _mod_block_name(f):
+    """Name on the right of `<index> % <block>` in f (the block-size variable), or None."""
+    for b in walk_local(f):
+        if isinstance(b, ast.BinOp) and isinstance(b.op, ast.Mod) and isinstance(b.right, ast.Name):
+            return b.right.id
+    return None
+
+
+def _const_offset(f, name):
+    """Constant term of the linear definition `name = <something> + k` (largest one found)."""
+    best = None
+    for n in walk_local(f):
+        if isinstance(n, ast.Assign) and isinstance(n.targets[0], ast.Name) and n.targets[0].id == name and isinstance(n.value, ast.BinOp):
+            lf = _lin_names(n.value)
+            if lf is not None and any(k for k in lf if k):
+                best = lf.get(frozenset(), 0)
+    return best
 
 
 def r192(ctx):
@@ -142,8 +179,13 @@ def r192(ctx):
     rx = tree.func(ENGPARTS, "read_xyz_file")
     keys = None
     for n in walk_local(rx):
-        if isinstance(n, ast.Assign) and path_of(n.targets[0]) == "xyz_keys":
-            keys = const_fold(n.value)
+        if isinstance(n, ast.Assign) and isinstance(n.value, (ast.Tuple, ast.List)):
+            try:
+                k_ = const_fold(n.value)
+            except ValueError:
+                continue
+            if all(isinstance(x, str) for x in k_) and {"x", "y", "z"} <= set(k_):
+                keys = k_
     wr = tree.func(ENGPARTS, "write_xyz_trajectory")
     call = [c for c in walk_local(wr) if isinstance(c, ast.Call) and isinstance(c.func, ast.Attribute) and c.func.attr == "format" and "_XYZ_BIG_VEL_FMT" in ast.unparse(c.func.value)]
     if keys and nf == len(keys) and call and len(call[0].args) == nf:
@@ -153,7 +195,15 @@ def r192(ctx):
     # column order: name, pos x y z, vel x y z
     if call:
         a = [ast.unparse(x) for x in call[0].args]
-        want = ["names[i]", "pos[i, 0]", "pos[i, 1]", "pos[i, 2]", "vel[i, 0]", "vel[i, 1]", "vel[i, 2]"]
+        wp = [p.arg for p in wr.args.args]  # (filename, pos, vel, names, box, ...)
+        lv = None
+        for L in loops_of(call[0]):
+            if isinstance(L, ast.For):
+                t_ = L.target.elts[0] if isinstance(L.target, ast.Tuple) else L.target
+                if isinstance(t_, ast.Name):
+                    lv = t_.id
+                    break
+        want = [f"{wp[3]}[{lv}]"] + [f"{wp[1]}[{lv}, {k}]" for k in range(3)] + [f"{wp[2]}[{lv}, {k}]" for k in range(3)]
         if a == want:
             ctx.ok(rid, call[0], "xyz: columns written as name, x, y, z, vx, vy, vz - the reader's key order")
         else:
@@ -179,13 +229,8 @@ def r192(ctx):
         if isinstance(n, ast.Call) and isinstance(n.func, ast.Attribute) and n.func.attr == "write" and not any(n in list(walk_local(l)) for l in loop):
             writes_before += 1
     xr = tree.func(ENGPARTS, "xyz_reader")
-    blk = None
-    for n in walk_local(xr):
-        if isinstance(n, ast.Assign) and path_of(n.targets[0]) == "block_size" and isinstance(n.value, ast.BinOp):
-            try:
-                blk = const_fold(n.value, {"N_atoms": ast.Constant(0)})
-            except ValueError:
-                pass
+    bname = _mod_block_name(xr)
+    blk = _const_offset(xr, bname) if bname else None
     if blk == writes_before == 2:
         ctx.ok(rid, xr, "xyz: 2 header lines written per frame = N + 2 lines per block expected by the on-the-fly reader")
     else:
@@ -210,52 +255,53 @@ def r193(ctx):
     rd = tree.func(LAMMPS, "read_lammpstrj")
     lc = {}
     consts = []
+    shs = [kwarg(n, "skip_header") for n in walk_local(rd) if isinstance(n, ast.Call) and dotted(n.func) == "np.genfromtxt"]
+    sh_names = {x.id for sh in shs if sh is not None for x in ast.walk(sh) if isinstance(x, ast.Name)}
     for n in walk_local(rd):
-        if isinstance(n, ast.Assign) and path_of(n.targets[0]) == "block_size":
-            try:
-                consts.append(("block", const_fold(n.value, {"n_atoms": ast.Constant(0)})))
-            except ValueError:
-                pass
-        if isinstance(n, ast.Call) and dotted(n.func) == "np.genfromtxt":
-            sh = kwarg(n, "skip_header")
-            try:
-                consts.append(("skip", const_fold(sh, {"block_size": ast.Constant(0), "frame": ast.Constant(0)})))
-            except (ValueError, TypeError):
-                pass
+        if isinstance(n, ast.Assign) and isinstance(n.targets[0], ast.Name) and n.targets[0].id in sh_names and isinstance(n.value, ast.BinOp):
+            lf = _lin_names(n.value)
+            if lf is not None:
+                consts.append(("block", lf.get(frozenset(), 0)))
+    for sh in shs:
+        lf = _lin_names(sh) if sh is not None else None
+        if lf is not None:
+            consts.append(("skip", lf.get(frozenset(), 0)))
     blk = [v for k, v in consts if k == "block"]
     skips = sorted(v for k, v in consts if k == "skip")
     if blk == [H] and skips == [5, H]:
         ctx.ok(rid, rd, f"lammpstrj: writer emits {H} non-atom lines; read_lammpstrj uses block = n + {blk[0]}, box at +{skips[0]}, atoms at +{skips[1]}")
     else:
         ctx.bad(rid, rd, f"lammpstrj: writer emits {H} non-atom lines per frame but read_lammpstrj uses block = n + {blk}, skip_header offsets {skips}")
-    sl = sorted(ast.unparse(n.slice).replace(" ", "").strip("()") for n in walk_local(rd) if isinstance(n, ast.Subscript) and "id_sorted" in ast.unparse(n.slice))
-    if sl == ["id_sorted,2:5", "id_sorted,5:8", "id_sorted,:2"]:
+    perm = {n.targets[0].id for n in walk_local(rd) if isinstance(n, ast.Assign) and isinstance(n.targets[0], ast.Name) and isinstance(n.value, ast.Call) and last_name(n.value) == "argsort"}
+    sl = sorted(ast.unparse(n.slice.elts[1]).replace(" ", "") for n in walk_local(rd) if isinstance(n, ast.Subscript) and isinstance(n.slice, ast.Tuple) and len(n.slice.elts) == 2 and isinstance(n.slice.elts[0], ast.Name) and n.slice.elts[0].id in perm)
+    if sl == ["2:5", "5:8", ":2"]:
         ctx.ok(rid, rd, "lammpstrj: read_lammpstrj columns id/type = :2, positions = 2:5, velocities = 5:8")
     else:
         ctx.bad(rid, rd, f"lammpstrj: read_lammpstrj column slices {sl} do not match id type x y z vx vy vz")
     # writer row layout: id_type (2) + pos (3) + vel (3)
-    row = [n for n in walk_local(wr) if isinstance(n, ast.For) and ast.unparse(n.iter) == "zip(id_type, pos, vel)"]
+    wpar = [p.arg for p in wr.args.args]  # (outfile, id_type, pos, vel, box, ...)
+    row = [n for n in walk_local(wr) if isinstance(n, ast.For) and ast.unparse(n.iter) == f"zip({wpar[1]}, {wpar[2]}, {wpar[3]})"]
     if row:
         ctx.ok(rid, row[0], "lammpstrj: rows are written as id/type, position, velocity")
     else:
         ctx.bad(rid, wr, "lammpstrj: rows are not written in the order id/type, position, velocity")
     # on-the-fly reader
     of = tree.func(ENGPARTS, "lammpstrj_reader")
-    blk2 = None
-    for n in walk_local(of):
-        if isinstance(n, ast.Assign) and path_of(n.targets[0]) == "block_size" and isinstance(n.value, ast.BinOp):
-            try:
-                blk2 = const_fold(n.value, {"N_atoms": ast.Constant(0)})
-            except ValueError:
-                pass
+    bname2 = _mod_block_name(of)
+    blk2 = _const_offset(of, bname2) if bname2 else None
+    # roles of the locals by construction: line number within the block = <index> % <block>; tokens = <line>.split(); index = enumerate variable of the line loop
+    lnr = {n.targets[0].id for n in walk_local(of) if isinstance(n, ast.Assign) and isinstance(n.targets[0], ast.Name) and isinstance(n.value, ast.BinOp) and isinstance(n.value.op, ast.Mod)}
+    toks_ = {n.targets[0].id for n in walk_local(of) if isinstance(n, ast.Assign) and isinstance(n.targets[0], ast.Name) and isinstance(n.value, ast.Call) and last_name(n.value) == "split"}
+    from .c13 import _line_loop
+    _loop, idxv, _linev = _line_loop(of)
     cmps = {}
     for n in walk_local(of):
-        if isinstance(n, ast.Compare) and path_of(n.left) == "line_nr" and isinstance(n.comparators[0], ast.Constant):
+        if isinstance(n, ast.Compare) and isinstance(n.left, ast.Name) and n.left.id in lnr and isinstance(n.comparators[0], ast.Constant):
             cmps.setdefault(type(n.ops[0]).__name__, []).append(n.comparators[0].value)
-        if isinstance(n, ast.Compare) and ast.unparse(n.left) == "len(spl)" and isinstance(n.comparators[0], ast.Constant):
+        if isinstance(n, ast.Compare) and isinstance(n.left, ast.Call) and last_name(n.left) == "len" and n.left.args and isinstance(n.left.args[0], ast.Name) and n.left.args[0].id in toks_ and isinstance(n.comparators[0], ast.Constant):
             cmps.setdefault("ncols", []).append(n.comparators[0].value)
-    cols = [ast.unparse(n.slice) for n in walk_local(of) if isinstance(n, ast.Subscript) and path_of(n.value) == "spl" and isinstance(n.slice, ast.Slice)]
-    natoms_line = [n.comparators[0].value for n in walk_local(of) if isinstance(n, ast.Compare) and path_of(n.left) == "i" and isinstance(n.ops[0], ast.Eq) and isinstance(n.comparators[0], ast.Constant)]
+    cols = [ast.unparse(n.slice) for n in walk_local(of) if isinstance(n, ast.Subscript) and isinstance(n.value, ast.Name) and n.value.id in toks_ and isinstance(n.slice, ast.Slice)]
+    natoms_line = [n.comparators[0].value for n in walk_local(of) if isinstance(n, ast.Compare) and isinstance(n.left, ast.Name) and n.left.id == idxv and isinstance(n.ops[0], ast.Eq) and isinstance(n.comparators[0], ast.Constant)]
     ok = blk2 == H and sorted(cmps.get("GtE", [])) == [5, H] and cmps.get("LtE") == [7] and cmps.get("ncols") == [9] and cols == ["2:8"] and 3 in natoms_line
     if ok:
         ctx.ok(rid, of, f"lammpstrj: on-the-fly reader block = N + {blk2}, atom count on line 3, box lines 5..7, atoms from {H}, 9 columns, data = spl[2:8]")
